@@ -224,6 +224,33 @@ pub fn run(ctx: &Ctx) -> i32 {
             conform(ctx, "medium-noise", &case, &f, &want);
         });
     }
+    // cel chunks of a frame stored in every order (each carries its own layer index)
+    if ctx.wants_family("cel-chunk-order") {
+        let perms = permutations(4);
+        ctx.family("cel-chunk-order", perms.len() as u64 * 3, "4 layers x 2 frames: frame 0 holds a cel on every layer, frame 1 links to them; the cel chunks of both frames stored in every one of the 24 orders; 3 pixel formats; emptiness, offsets and images of all 8 cels compared with the model", true);
+        perms.par_iter().for_each(|p| {
+            for fi in 0..3usize {
+                let case = || format!("order={:?} fmt{}", p, fi);
+                if !ctx.wants("cel-chunk-order", &case) {
+                    continue;
+                }
+                let fmt = [Fmt::Rgba, Fmt::Gray, Fmt::Indexed(0)][fi].clone();
+                let mut f = gen::file(4, 4, &fmt, &[10, 20]);
+                if fi == 2 {
+                    f.frames[0].push(new_palette(0, pal_entries(8, 3)));
+                }
+                for l in 0..4 {
+                    f.frames[0].push(Body::Layer(Layer::image(&format!("l{}", l))));
+                }
+                for l in p {
+                    let l = *l as u16;
+                    f.frames[0].push(raw_cel(l, l as i16 - 1, 2 - l as i16, 255 - 20 * l as u8, 2, 2, pixels(&fmt, 2, 2, l as u32 + 3, (0, 7))));
+                    f.frames[1].push(link_cel(l, 0, 0, 255, 0));
+                }
+                conform(ctx, "cel-chunk-order", &case, &f, &want);
+            }
+        });
+    }
     if ctx.wants_family("absent") {
         let cases: Vec<u32> = (0..64).collect();
         ctx.family("absent", 64 * 3, "2 frames x 3 layers: every subset of the 6 cells present (3 formats); absent cells must report empty, offset (0,0) and a transparent image", true);
